@@ -4,6 +4,7 @@ from facts import AnalysisBroken
 from rules import (check_init, nodeset, callpred, ev, Unevaluable, forced_edges, atom_from, one, some, reach, atomic_ops,
                    ret_const, is_param_load, is_var_load, field_of)
 from props import c01
+from props import deps
 import stale
 
 EXPLANATION = (
@@ -251,6 +252,8 @@ def run(ctx):
     c01.core_dependency(ctx, P, "core.dep", ('fiber_manager_wait_in_mpsc_queue', 'fiber_manager_wait_in_mpsc_queue_and_unlock', 'fiber_manager_wake_from_mpsc_queue', 'fiber_mutex_lock', 'fiber_mutex_unlock', 'fiber_mutex_unlock_internal', 'fiber_mutex_trylock'),
                         "the mutex's sleep/wake path (wait_in_mpsc_queue / wake_from_mpsc_queue)",
                         'a waiter resumed before its context is saved, or never scheduled, breaks mutual exclusion or strands the lock')
+    deps.depend(ctx, P, 'C15', 'queue.dep', "the mutex's waiter queue (mpsc_fifo)",
+                'a waiter that the queue drops or hands out twice is never woken / woken twice', lambda x: x.rule.startswith(("mpsc.", "mpsc_fifo.")) or x.fn == "mpsc_fifo_init")
     check_lock(ctx, P)
     check_trylock(ctx, P)
     check_unlock(ctx, P)
